@@ -223,8 +223,68 @@ fn one_variant<V: Variant>(ctx: &mut Ctx, tier: Tier) {
     ctx.add_part(part);
 }
 
+/// the quantity key generation compares with 1.17^2 q, as a component: the library's value against a naive-DFT
+/// reference on the candidates key generation actually draws (first candidate of each seed of a window)
+fn norm_component(ctx: &mut Ctx, tier: Tier) {
+    let mut part = Part::new("gram_schmidt_norm_component", "max(||(g,-f)||^2, ||(q f*/(ff*+gg*), q g*/(ff*+gg*))||^2) as key generation computes it (hook) against a naive-DFT reference, on the first (f,g) candidate of every seed of a window (64 seeds per variant quick, 512 thorough) and on 4 structured pairs per size n = 8..1024; relative tolerance 1e-9");
+    let mut worst: f64 = 0.0;
+    for n in [512usize, 1024] {
+        let count: u64 = if tier.thorough() { 512 } else { 64 };
+        let res: Vec<(u64, f64, f64)> = (0..count)
+            .into_par_iter()
+            .map(|s| {
+                let s = ctx_seed_offset(s);
+                let (f, g) = crate::util::first_candidate(n, s);
+                let (a, b) = crate::util::gamma_parts(&f, &g);
+                let fi: Vec<i16> = f.iter().map(|&x| x as i16).collect();
+                let gi: Vec<i16> = g.iter().map(|&x| x as i16).collect();
+                let got = catch(|| falcon_rust::verif_hooks::gram_schmidt_norm_squared(&fi, &gi)).unwrap_or(f64::NAN);
+                (s, a.max(b), got)
+            })
+            .collect();
+        for (s, want, got) in res {
+            part.states += 1;
+            part.transitions += 1;
+            part.validated += 1;
+            let rel = ((got - want) / want).abs();
+            worst = worst.max(if rel.is_finite() { rel } else { 1.0 });
+            if !(rel <= 1e-9) {
+                ctx.violation(format!("gram-schmidt-norm-component:n={}", n), format!("n={}: key generation's Gram-Schmidt quantity for the first candidate of seed LE64({}) is {} but the definition gives {} (relative difference {:e}): the acceptance test 'gamma <= 1.17^2 q' is applied to a wrong number", n, s, got, want, rel), json!({"kind":"norm-component","variant":n,"seed":s}));
+            }
+        }
+    }
+    for n in crate::util::sizes(8) {
+        for t in 0..4i64 {
+            let f: Vec<i64> = (0..n as i64).map(|i| ((i * 5 + 3 * t + 1) % 9) - 4 + if i == 0 { 9 + t } else { 0 }).collect();
+            let g: Vec<i64> = (0..n as i64).map(|i| ((i * 7 + t + 2) % 7) - 3).collect();
+            let (a, b) = crate::util::gamma_parts(&f, &g);
+            let fi: Vec<i16> = f.iter().map(|&x| x as i16).collect();
+            let gi: Vec<i16> = g.iter().map(|&x| x as i16).collect();
+            let got = catch(|| falcon_rust::verif_hooks::gram_schmidt_norm_squared(&fi, &gi)).unwrap_or(f64::NAN);
+            part.states += 1;
+            part.transitions += 1;
+            part.validated += 1;
+            let want = a.max(b);
+            let rel = ((got - want) / want).abs();
+            worst = worst.max(if rel.is_finite() { rel } else { 1.0 });
+            if !(rel <= 1e-9) {
+                ctx.violation(format!("gram-schmidt-norm-component:n={}", n), format!("n={}: the Gram-Schmidt quantity of a structured pair is {} but the definition gives {}", n, got, want), json!({"kind":"norm-component","variant":n,"seed":t}));
+            }
+        }
+    }
+    part.set("worst_relative_difference", json!(worst));
+    part.outcome("equal to the definition".to_string());
+    part.exhaustive = true;
+    ctx.add_part(part);
+}
+
+fn ctx_seed_offset(s: u64) -> u64 {
+    std::env::var("VERIF_SEED").ok().and_then(|v| v.parse::<u64>().ok()).unwrap_or(0).wrapping_mul(4096) + 300 + s
+}
+
 pub fn run(tier: Tier) {
     let mut ctx = Ctx::new("C04", tier);
+    norm_component(&mut ctx, tier);
     one_variant::<V512>(&mut ctx, tier);
     one_variant::<V1024>(&mut ctx, tier);
     // leaves and key bytes must not depend on what ran before in the process (e.g. the other variant)
@@ -249,6 +309,9 @@ pub fn run(tier: Tier) {
 pub fn replay(case: &Value) -> Result<Option<String>, String> {
     if case.get("kind").and_then(|k| k.as_str()) == Some("history") {
         return crate::history::replay(case);
+    }
+    if case.get("kind").and_then(|k| k.as_str()) == Some("norm-component") {
+        return Err("re-run ./vf check C04 (the component family is enumerated deterministically)".into());
     }
     let variant = case.get("variant").and_then(|x| x.as_u64()).ok_or("variant")?;
     let seed = case.get("seed").and_then(|x| x.as_u64()).ok_or("seed")?;
